@@ -50,7 +50,7 @@ def gen(rng, tier):
             if rng.random() < 0.3:
                 dep = rng.choice([0] + [s["sid"] for s in streams]) if streams else 0
                 prio = (dep, rng.randrange(256), rng.random() < 0.3)
-            streams.append({"sid": sid, "tag": tag, "size": size, "rst_at": None})
+            streams.append({"sid": sid, "tag": tag, "size": size, "rst_at": None, "dep": prio[0] if prio else 0})
             total_budget += size
             if rng.random() < 0.15:
                 blob += fb.priority(sid, dep=rng.choice([0] + [s["sid"] for s in streams[:-1]]) if len(streams) > 1 else 0,
@@ -76,6 +76,14 @@ def gen(rng, tier):
         if rng.random() < 0.2 and nstreams > 1:
             a, b = rng.sample(streams, 2)
             client.append(["feed", fb.priority(a["sid"], dep=b["sid"], weight=rng.randrange(256), excl=rng.random() < 0.5)])
+        deps = [s_ for s_ in streams if s_["dep"]]
+        if deps and rng.random() < 0.5:
+            # a stream is made dependent on one of its own dependents (RFC 7540 5.3.3), while responses are in flight
+            child = rng.choice(deps)
+            client.append(["feed", fb.priority(child["dep"], dep=child["sid"], weight=rng.randrange(256), excl=rng.random() < 0.5)])
+            t_cycle = True
+        else:
+            t_cycle = False
         need = max(total_budget, 1)
         if policy == "settings_grow":
             # credit only via SETTINGS_INITIAL_WINDOW_SIZE growth for the streams, plus connection-level updates
@@ -100,7 +108,7 @@ def gen(rng, tier):
             "config": {"keep_alive_timeout": 5000}, "conn": {},
             "apps": {"default": [["recv_until_end"], ["respond", 200, [], b"d"]], "by_tag": by_tag},
             "client": client, "reactor": rspec,
-            "truth": {"streams": streams, "iw": iw, "mf": mf, "policy": policy, "total": total_budget},
+            "truth": {"streams": streams, "iw": iw, "mf": mf, "policy": policy, "total": total_budget, "prio_cycle": t_cycle},
             "sched": {"seed": rng.randrange(1 << 30), "net_jitter": rng.choice([None, None, [0.3, 3]])},
             "horizon": 100.0,
         }
